@@ -9,7 +9,7 @@ OUT="$1"; RACE="${2:-}"
 V=/verif
 REPO="${VERIF_REPO:-/repo}"
 export GOFLAGS=-mod=mod GOPROXY=off GOSUMDB=off GOTOOLCHAIN=local CGO_ENABLED=0
-[ -n "$RACE" ] && export CGO_ENABLED=1
+[ "$RACE" = race ] && export CGO_ENABLED=1
 GO=go1.26.8
 export PATH="$($GO env GOROOT)/bin:$PATH"
 S="${VERIF_SCRATCH:-/var/tmp/verif.$$}"
@@ -45,7 +45,29 @@ cat > "$S/overlay.json" <<EOF
 {"Replace": {"$GR/src/runtime/select.go": "$V/overlay/runtime/select.go", "$GR/src/runtime/simhook.go": "$V/overlay/runtime/simhook.go"}}
 EOF
 FLAGS="-tags verif -overlay $S/overlay.json"
-if [ -n "$RACE" ]; then
+if [ "$RACE" = cover ]; then
+  # coverage build (./covreport.sh): statement counters for the library packages only
+  # (a test binary cannot dump its counters before os.Exit; an ordinary binary that
+  # drives the same TestSim through testing.Main can)
+  cp "$S/h/main_test.go" "$S/h/main_cov.go" && rm "$S/h/main_test.go" || fail "cover main"
+  mkdir -p "$S/h/cmd/covmain"
+  cat > "$S/h/cmd/covmain/main.go" <<EOF2
+package main
+
+import (
+	"testing"
+
+	"vsim"
+)
+
+func main() {
+	testing.Main(func(pat, str string) (bool, error) { return true, nil },
+		[]testing.InternalTest{{Name: "TestSim", F: vsim.TestSim}}, nil, nil)
+}
+EOF2
+  ( cd "$S/h" && CGO_ENABLED=0 $GO build $FLAGS -cover -covermode=atomic -coverpkg=vsim/cmd/covmain,github.com/uber/tchannel-go,github.com/uber/tchannel-go/typed,github.com/uber/tchannel-go/relay,github.com/uber/tchannel-go/raw,github.com/uber/tchannel-go/json,github.com/uber/tchannel-go/thrift,github.com/uber/tchannel-go/thrift/arg2,github.com/uber/tchannel-go/internal/argreader -o "$OUT" ./cmd/covmain ) || fail "go build -cover"
+  if [ -n "${VERIF_COVER_SRC:-}" ]; then rm -rf "$VERIF_COVER_SRC"; cp -r "$S/lib" "$VERIF_COVER_SRC"; fi
+elif [ -n "$RACE" ]; then
   # race build: simrt and the harness are NOT instrumented (their shared state is
   # serialised by the scheduler, whose hand-offs are hidden from the detector)
   ( cd "$S/h" && $GO test -c $FLAGS -race -gcflags='vsim=-race=false' -gcflags='vsim/...=-race=false' -gcflags='github.com/uber/tchannel-go/simrt=-race=false' -o "$OUT" . ) || fail "go test -c -race"
